@@ -815,7 +815,7 @@ func (m *monitor) directCase(rs *resultSet, r *vh.Rand, limits bool) {
 			c.Tag("ipc:decimal-cast-error-rows-silently-missing(direct replica)")
 		}
 	} else {
-		m.checkIPC(rs, sc, rr, ierr, rs.nrows)
+		m.checkIPC("ipc", rs, sc, rr, ierr, rs.nrows)
 	}
 	for _, x := range rr {
 		x.Release()
@@ -1043,6 +1043,24 @@ func main() {
 		out := vh.Guard(func() string { duckCase(c, m, e, rq, xs, n, rq.Intn(5), "mix"); return "" })
 		if strings.HasPrefix(out, "panic:") {
 			c.Fail("encoder-panic:duck", out, "random DuckDB case #"+strconv.Itoa(i))
+		}
+	}
+	// opt-in dictionary encoding on the Arrow endpoint x decimal-producing columns; query sequences on the one
+	// long-lived handler (identical type vectors, different aliases / order) in all three formats
+	nDict, nSeq := 8, 6
+	if c.Thorough() {
+		nDict, nSeq = 80, 60
+	}
+	for i := 0; i < nDict; i++ {
+		out := vh.Guard(func() string { dictCase(c, m, e, rq, i); return "" })
+		if strings.HasPrefix(out, "panic:") {
+			c.Fail("encoder-panic:duck", out, "dictionary case #"+strconv.Itoa(i))
+		}
+	}
+	for i := 0; i < nSeq; i++ {
+		out := vh.Guard(func() string { seqCase(c, m, e, rq, i); return "" })
+		if strings.HasPrefix(out, "panic:") {
+			c.Fail("encoder-panic:duck", out, "sequence case #"+strconv.Itoa(i))
 		}
 	}
 	// tiny results over the Arrow endpoint: the stream writer finishes while fasthttp may still be serialising the
